@@ -655,7 +655,7 @@ def expandable(
                     for arg in chain(args, kw.values())
                 )
 
-                total = sum(obj.total for obj in objs)
+                total = prod(obj.total for obj in objs)
 
                 def _expand_if_we_can_can_can() -> Iterator[Tuple[HOrOutcomeT, int]]:
                     for result_counts in product(
